@@ -28,6 +28,20 @@ func swapDir(name string) string {
 	return name
 }
 
+// mirrorHelperPairs: per-direction helper pairs met while printing the direction-1 side (direction-0 helper first).
+var mirrorHelperPairs = map[[2]*ssa.Function]bool{}
+
+// siblingFunc: the function or method of the same package and receiver named name.
+func siblingFunc(f *ssa.Function, name string) *ssa.Function {
+	if f.Pkg == nil {
+		return nil
+	}
+	if recv := f.Signature.Recv(); recv != nil {
+		return f.Prog.LookupMethod(recv.Type(), f.Pkg.Pkg, name)
+	}
+	return f.Pkg.Func(name)
+}
+
 type exprPrinter struct {
 	rename func(string) string
 	region map[*ssa.BasicBlock]int
@@ -78,7 +92,18 @@ func (ep *exprPrinter) str(v ssa.Value, d int) string {
 		for _, a := range callArgs(x) {
 			as = append(as, ep.str(a, d+1))
 		}
-		return callName(x) + "(" + strings.Join(as, ",") + ")"
+		cn := callName(x)
+		// a pair of per-direction helpers of the package (reorder0 / reorder1) is renamed like a pair of fields;
+		// that the two are mirror images of each other is checked separately (mirrorHelperPairs)
+		if sc := x.Call.StaticCallee(); sc != nil && len(sc.Blocks) > 0 && !token.IsExported(sc.Name()) && ep.rename != nil {
+			if rn := ep.rename(sc.Name()); rn != sc.Name() {
+				if other := siblingFunc(sc, rn); other != nil {
+					cn = strings.TrimSuffix(cn, sc.Name()) + rn
+					mirrorHelperPairs[[2]*ssa.Function{other, sc}] = true
+				}
+			}
+		}
+		return cn + "(" + strings.Join(as, ",") + ")"
 	case *ssa.Slice:
 		return ep.str(x.X, d+1) + "[" + ep.str(x.Low, d+1) + ":" + ep.str(x.High, d+1) + "]"
 	case *ssa.IndexAddr:
@@ -721,6 +746,34 @@ func runC18(c *Ctx) {
 				break
 			}
 		}
+		// per-direction helpers called from the two branches must themselves be mirror images
+		for round := 0; round < 3 && len(mirrorHelperPairs) > 0; round++ {
+			pairs := mirrorHelperPairs
+			mirrorHelperPairs = map[[2]*ssa.Function]bool{}
+			for pr := range pairs {
+				h0, h1 := pr[0], pr[1]
+				if len(h0.Blocks) == 0 || len(h1.Blocks) == 0 {
+					continue
+				}
+				a0 := serializeRegion(h0.Blocks[0], func(s string) string { return s })
+				b1 := serializeRegion(h1.Blocks[0], swapDir)
+				o.Site(h0.Pos(), "helper pair %s / %s", fname(h0), fname(h1))
+				for i := 0; i < len(a0) || i < len(b1); i++ {
+					var la, lb string
+					if i < len(a0) {
+						la = a0[i]
+					}
+					if i < len(b1) {
+						lb = b1[i]
+					}
+					if la != lb {
+						o.Fail(h0.Pos(), "the per-direction helpers %s and %s differ (direction 1 renamed): [%s] vs [%s]", fname(h0), fname(h1), strings.TrimSpace(la), strings.TrimSpace(lb))
+						break
+					}
+				}
+			}
+		}
+		mirrorHelperPairs = map[[2]*ssa.Function]bool{}
 	}
 
 	// R10 the Bridge endpoint reports the end of the stream only when its channel was closed
